@@ -54,3 +54,16 @@ Example C12_nonvacuous :
   Header_from_value (VMap [(VInt 4, VBytes [x01]); (VText [x61], VNull); (VInt 4, VBytes [x02])]) = Err EDup.
 Proof. split; [|vm_compute; reflexivity].
   exists 0%nat, 2%nat, (VInt 4), (VInt 4), (LInt 4). repeat split; auto. Qed.
+
+(* known finding F7: the duplicate-key error of a header nested in a COSE_Signature that is an element of
+   COSE_Sign.signatures is masked (UnexpectedItem); in a recipient, a counter-signature or on its own it comes through *)
+Definition f7_dup : value := VMap [(VInt 4, VBytes [x01]); (VInt 4, VBytes [x01])].
+Definition f7_sig : value := VArray [VBytes []; f7_dup; VBytes []].
+Theorem C12_sign_nested_dup_masked_refuted :
+  Header_from_value f7_dup = Err EDup /\
+  CoseSignature_from_value f7_sig = Err EDup /\
+  CoseSign_from_value (VArray [VBytes []; VMap []; VNull; VArray [f7_sig]]) = Err EUnexpected /\
+  CoseSign1_from_value (VArray [VBytes []; VMap [(VInt 7, f7_sig)]; VNull; VBytes []]) = Err EDup /\
+  CoseMac_from_value (VArray [VBytes []; VMap []; VNull; VBytes []; VArray [VArray [VBytes []; f7_dup; VNull]]]) = Err EDup.
+Proof. repeat split; vm_compute; reflexivity. Qed.
+Print Assumptions C12_sign_nested_dup_masked_refuted.
